@@ -131,3 +131,6 @@ Definition rw_unix_milli (t : expr) := {| rw_name := "timeExprSimplify"; rw_lhs 
 Definition rw_unix_micro (t : expr) := {| rw_name := "timeExprSimplify"; rw_lhs := EBinary OMul (call1 PUnixNano t) lit1000; rw_rhs := call1 PUnixMicro t |}.
 (* offBy1's suggestion (not an equivalence claim: "maybe you wanted"): $x[len($x)] => $x[len($x)-1] *)
 Definition rw_off_by1 (x : expr) := {| rw_name := "offBy1"; rw_lhs := EIndex x (call1 PLen x); rw_rhs := EIndex x (EBinary OSub (call1 PLen x) lit1) |}.
+
+(* yodaStyleExpr: $constval op $x => $x op $constval   (op is == or !=; filter: $constval is a BasicLit) *)
+Definition rw_yoda (o : binop) (c x : expr) := {| rw_name := "yodaStyleExpr"; rw_lhs := EBinary o c x; rw_rhs := EBinary o x c |}.
